@@ -191,6 +191,21 @@ def gen_backend(rng, idx, opts):
     return {"id": bid, "name": "Backend " + bid.upper(), "flags": flags, "state": "up", "error": "", "tables": tables}
 
 
+def auth_spelling(rng, value, default):
+    """the configuration file may spell ServiceAuthorization / GroupAuthorization in any case; a word that is neither loose nor
+    strict means the setting's default (loose for services, strict for groups)"""
+    r = rng.random()
+    if r < 0.7:
+        return value
+    if r < 0.8:
+        return value.upper()
+    if r < 0.9:
+        return value.capitalize()
+    if value == default and r < 0.95:
+        return rng.choice(["relaxed", "none", "Strictly"])
+    return value[0].upper() + value[1:-1] + value[-1].upper()
+
+
 def gen_dataset(rng, opts=None):
     opts = opts or {}
     nb = rng.choice(opts.get("nbackends", [1, 1, 2, 2, 3, 4]))
@@ -223,8 +238,8 @@ def gen_dataset(rng, opts=None):
                     for row in t["rows"]:
                         row[i] = 0
     ds = {"backends": backends,
-          "service_auth": rng.choice(opts.get("service_auth", ["loose"])),
-          "group_auth": rng.choice(opts.get("group_auth", ["strict"]))}
+          "service_auth": auth_spelling(rng, rng.choice(opts.get("service_auth", ["loose"])), "loose"),
+          "group_auth": auth_spelling(rng, rng.choice(opts.get("group_auth", ["strict"])), "strict")}
     return ds
 
 
